@@ -1103,12 +1103,12 @@ def synMeths (attrs : List (String × Attr)) (o : Obj) : Meths where
   callM n :=
     if n == "__call__" then (if o.caps.callable then some o.callDen else none)
     else if (attrs.lookup n).getD .absent == .method && n != "run" && n != "fill" && n != "compute"
-        && n != "fill_into" && n != "request" then some (fun v => .ok (.list [.str n, v]))
+        && n != "fill_into" && n != "request" && n != "__iter__" then some (fun v => .ok (.list [.str n, v]))
     else none
   runM n :=
     if n == "run" then (if o.caps.hasMethod "run" then some o.runDen else none)
     else if (attrs.lookup n).getD .absent == .method && n != "fill" && n != "compute" && n != "fill_into"
-        && n != "request" then
+        && n != "request" && n != "__iter__" then
       some (fun s => match s.term with
         | some e => .error e
         | none => .ok (.ofList [.str n, .list s.vals]))
@@ -1116,7 +1116,7 @@ def synMeths (attrs : List (String × Attr)) (o : Obj) : Meths where
   fillIntoM n :=
     if n == "fill_into" then (if o.caps.hasMethod "fill_into" then some o.fillIntoDen else none)
     else if (attrs.lookup n).getD .absent == .method && n != "run" && n != "fill" && n != "compute"
-        && n != "request" then some (.call (fun v => .ok (.list [.str n, v])))
+        && n != "request" && n != "__iter__" then some (.call (fun v => .ok (.list [.str n, v])))
     else none
   accM f c :=
     if f == "fill" && c == "compute" then (if o.caps.isFillComputeEl then some o.accDen else none)
